@@ -317,6 +317,12 @@ def emit(T):
     for a, b in T["commandMd"]:
         m = re.search(r"CC#(\d+)", b)
         crow.append("  (%s, %d)" % (cps(a.strip()), int(m.group(1)) if m else -1))
+    srow = []
+    for a, b in T["commandMd"]:
+        m = re.search(r'\(値:"(.*)"\)\s*$', b)
+        if m: srow.append("  (%s, %s)" % (cps(a.strip()), cps(m.group(1))))
+    t.append("/-- command.md rows that document a string value: (name, documented text) -/")
+    t.append(chunked("commandMdStr", "List Nat × List Nat", srow))
     t.append("/-- command.md rows: (command, controller number named in the description or -1) -/")
     t.append(chunked("commandMd", "List Nat × Int", crow))
     t.append("end Sakura.Gen")
